@@ -893,10 +893,22 @@ fn run_inner(scn: &Scn, res: &mut ScnResult) -> Result<(), String> {
                     res.count(&format!("not_accepted.{}.{}", kind.name(), scheme), 1);
                     continue;
                 }
-                let sh: Vec<Vec<u64>> = (0..n).map(|_| (0..scn.spec.n).map(|_| mrng.below(env.t)).collect()).collect();
+                // shares are slot vectors; a party may hand in fewer values than there are slots (the
+                // rest counts as zero, as in the crate's own test), all equal ones, or none
+                let sh: Vec<Vec<u64>> = (0..n)
+                    .map(|_| match mrng.below(6) {
+                        0 => {
+                            let len = mrng.range(0, scn.spec.n - 1);
+                            let c = mrng.below(env.t);
+                            vec![c; len]
+                        }
+                        1 => (0..mrng.range(1, scn.spec.n - 1)).map(|_| mrng.below(env.t)).collect(),
+                        _ => (0..scn.spec.n).map(|_| mrng.below(env.t)).collect(),
+                    })
+                    .collect();
                 let mut expect = vec![0u64; scn.spec.n];
                 for v in &sh {
-                    for j in 0..scn.spec.n {
+                    for j in 0..v.len() {
                         expect[j] = ((expect[j] as u128 + v[j] as u128) % env.t as u128) as u64;
                     }
                 }
